@@ -140,7 +140,7 @@ def gen_lg_case(rng, focus="route", malformed=0.1, unique_names=True):
     writers, wtok = [], []
     nw = rng.choice([0, 1, 2, 2, 3]) if focus != "spec" else rng.choice([0, 0, 1])
     for n in rng.sample(WRITERS, nw):
-        kind = rng.choice(["c", "c", "f"])
+        kind = rng.choice(["c", "c", "f", "s"])
         wtok.append("%s:%s:%d" % (hx(n), kind, rng.randint(0, 5)))
         writers.append(n)
     de, do = rng.choice([0, 0, 1, 2, 3, 4, 5, 6]), rng.choice([0, 0, 0, 1, 3, 6])
